@@ -74,7 +74,8 @@ def conv_mismatch(a, us1, us2, d, d2):
 def conv_mismatch_text(a, us1, us2, d, d2):
     v = UnitValue(a, Units(SYS[us1], UnitsDimensions(*d)))
     tgt = Units(SYS[us2], UnitsDimensions(*d2))
-    return raises(lambda: v.convert(str(tgt))) and raises(lambda: UnitValue(str(v), str(tgt)))
+    # (the constructor form uses a concrete magnitude: formatting a symbolic float would make the path tree explode)
+    return raises(lambda: v.convert(str(tgt))) and raises(lambda: UnitValue("2.5 " + str(v.units), str(tgt)))
 
 
 def composition(kind, e, xa, xb, xc):
